@@ -15,14 +15,21 @@
   with `$` iff `isOp code`.
 
   Known findings (the code really fails the property there; witnesses replayed on the real code
-  by the check; `knownIgnored*`, `knownSilent`, `knownOptOutIneffective` are generated from
+  by the check; `knownIgnored*`, `knownSilent` are generated from the `known` entries of
   known_findings.json): three positions validate nothing (a path reaching no value, update
   matching no document, clauses next to `$each` in `$addToSet`) — the former finding "top-level
   `$not` (also directly inside `$elemMatch`) is accepted and ignored" is fixed in the library
   (`ignored:queryTop:$not`, `ignored:queryElemMatch:$not`: `$not` is rejected at the top level
-  and evaluated on the element inside `$elemMatch`); options dropped silently by `find`, `find_one`,
-  `aggregate`, `find_one_and_*`, `create_index`, `Database.command`, bulk `add_*`; options that
-  still raise after `ignore_feature` (`aggregate(session)`, `Database` methods).
+  and evaluated on the element inside `$elemMatch`); ONE option is still accepted without an
+  opt-out: `Collection.find(collation=…)`, which the library stores on the cursor on purpose
+  (`known_silent_is_find_collation` names it).
+  Repaired in the library and gone from every exclusion list (the witnesses are probed again on
+  every run, harness/props/c20.py `judge_fixed`): the options dropped silently by `find` /
+  `find_one` (session: d0b630a; `find_one` collation: 08d4d98), `aggregate` (b1f1430),
+  `create_index` (a8af69f), `find_one_and_*` (1dab744), bulk `add_*` (51ec724),
+  `Database.command` (612f87a), and the opt-outs that did not work (`aggregate(session)` b1f1430,
+  `Database` methods 4a36577) — `opt_out_is_honoured` now holds over the whole table and there is
+  no list of ineffective opt-outs any more.
   When a defect is fixed in /repo: set its entry to "fixed" in known_findings.json, and once no
   `ignored` entry is left delete the `_full`/`_full_fails` pair and rename `_partial`.
 -/
@@ -197,7 +204,7 @@ example : Position.accumulator.lazy = false ∧ isOp 478628377636 = true ∧
 def options_loud_full : Prop :=
   ∀ e ∈ Generated.options, e.optedOut = false → e.relevant = true → e.disp ≠ .accepted
 
-/-- False as it stands (known findings `silent-option:*`, e.g. `find(session=…)`). -/
+/-- False as it stands (known finding `silent-option:Collection.find:collation`). -/
 theorem options_loud_full_fails : ¬ options_loud_full := by
   intro h
   obtain ⟨e, he, hd⟩ := List.any_eq_true.mp Proofs.C20.some_option_silent
@@ -218,11 +225,26 @@ example : ∃ e ∈ Generated.options, e.optedOut = false ∧ e.relevant = true 
   simp only [Bool.and_eq_true, Bool.not_eq_true', decide_eq_true_eq] at hd
   exact ⟨e, he, hd.1.1, hd.1.2, hd.2⟩
 
-/-- **Options are loud in company (modulo the listed known findings).**  For every method and
+/-- **The listed cases, by name.**  After the repairs of the library the list of options that
+    are dropped silently has one member: the `collation` argument of `Collection.find`. -/
+theorem known_silent_is_find_collation :
+    ∀ k ∈ Generated.knownSilent,
+      Generated.methods[k.1]? = some ("Collection", "find") ∧ k.2 = .collation :=
+  Proofs.C20.known_silent_is_find_collation
+
+/-- **Options are loud, but for `find(collation=…)`.**  Over the whole regenerated table: a
+    relevant option the caller has not opted out of makes the call raise, on every method other
+    than `Collection.find` and for every option other than `collation`. -/
+theorem options_loud_except_find_collation :
+    ∀ e ∈ Generated.options, e.optedOut = false → e.relevant = true → e.disp = .accepted →
+      Generated.methods[e.mid]? = some ("Collection", "find") ∧ e.option = .collation :=
+  fun e he h1 h2 h3 => known_silent_is_find_collation e.key (options_loud_partial e he h1 h2 h3)
+
+/-- **Options are loud in company (modulo the listed known finding).**  For every method and
     every ordered pair (A, B) of distinct options it accepts, called with BOTH present — A opted
     out with `ignore_feature` or not, B not opted out: a relevant B is accepted silently only
-    where B alone already is (the listed `silent-option:*` findings).  An opted-out option does
-    not shield the options that accompany it. -/
+    where B alone already is (`find(collation=…)`).  An opted-out option does not shield the
+    options that accompany it. -/
 theorem options_loud_pairs :
     ∀ e ∈ Generated.optionPairs, e.relevant = true → e.disp = .accepted →
       e.key ∈ Generated.knownSilent :=
@@ -235,31 +257,70 @@ example : ∃ e ∈ Generated.optionPairs, e.relevant = true ∧ e.aOptedOut = t
   simp only [Bool.and_eq_true, decide_eq_true_eq] at hd
   exact ⟨e, he, hd.1.1, hd.1.2, hd.2⟩
 
+/-- **Every opt-out is honoured** (full statement, the whole table, no exception): for session,
+    collation, array_filters, let, on every method that knows the option at all (does not
+    reject it as an unknown argument, `raisesOther`), the call goes through once the caller has
+    opted out with `ignore_feature`.  (Formerly false: `aggregate(session=…)` and the `Database`
+    methods raised after `ignore_feature`; repaired by b1f1430 and 4a36577.) -/
+theorem opt_out_is_honoured :
+    ∀ e ∈ Generated.options, e.option.ignorable = true → e.optedOut = true →
+      e.disp ≠ .raisesOther → e.disp = .accepted :=
+  fun e he h1 h2 h3 => Proofs.C20.opt_out_honoured e he h1 h2 h3
+
+/-- the table does contain opted-out options that are let through -/
+example : ∃ e ∈ Generated.options, e.option.ignorable = true ∧ e.optedOut = true ∧
+    e.disp = .accepted := by
+  obtain ⟨e, he, hd⟩ := List.any_eq_true.mp Proofs.C20.some_optout_effective
+  simp only [Bool.and_eq_true, decide_eq_true_eq] at hd
+  exact ⟨e, he, hd.1.1, hd.1.2, hd.2⟩
+
 /-- The full-strength statement: an option a method recognises is ignored iff opted out. -/
 def options_ignored_iff_opted_out_full : Prop :=
   ∀ e ∈ Generated.options, e.option.ignorable = true → e.disp ≠ .raisesOther →
     (e.disp = .accepted ↔ e.optedOut = true)
 
-/-- False as it stands, in both directions (known findings `silent-option:*` and
-    `optout-ineffective:*`, e.g. `aggregate(session=…)` raises even after
-    `ignore_feature('session')`). -/
+/-- False as it stands, in ONE direction only (the other one is `opt_out_is_honoured`): the known
+    finding `silent-option:Collection.find:collation` is accepted without an opt-out. -/
 theorem options_ignored_iff_opted_out_full_fails : ¬ options_ignored_iff_opted_out_full := by
   intro h
-  obtain ⟨e, he, hd⟩ := List.any_eq_true.mp Proofs.C20.some_optout_ineffective
-  simp only [Bool.and_eq_true, decide_eq_true_eq] at hd
-  have := (h e he hd.1.1 (by rw [hd.2]; decide)).mpr hd.1.2
-  rw [hd.2] at this
+  obtain ⟨e, he, hd⟩ := List.any_eq_true.mp Proofs.C20.some_ignorable_silent
+  simp only [Bool.and_eq_true, Bool.not_eq_true', decide_eq_true_eq] at hd
+  have := (h e he hd.1.1 (by rw [hd.2]; decide)).mp hd.2
+  rw [hd.1.2] at this
   exact absurd this (by decide)
 
-/-- **Ignored iff opted out (partial: modulo the listed known findings).**  For session,
-    collation, array_filters, let: wherever the method does not reject the option as unknown
+/-- **Ignored iff opted out (partial: modulo `find(collation=…)`).**  For session, collation,
+    array_filters, let: wherever the method does not reject the option as unknown
     (`raisesOther`), the option is accepted exactly when the caller has opted out with
-    `ignore_feature` — and raises NotImplementedError otherwise. -/
+    `ignore_feature`.  The only exclusion list left is `knownSilent`, i.e.
+    `Collection.find(collation)`; the list of ineffective opt-outs is gone. -/
 theorem options_ignored_iff_opted_out_partial :
     ∀ e ∈ Generated.options, e.option.ignorable = true → e.disp ≠ .raisesOther →
-      e.key ∉ Generated.knownSilent → e.key ∉ Generated.knownOptOutIneffective →
+      e.key ∉ Generated.knownSilent →
       (e.disp = .accepted ↔ e.optedOut = true) :=
-  fun e he h1 h2 h3 h4 => Proofs.C20.options_iff e he h1 h2 h3 h4
+  fun e he h1 h2 h3 => Proofs.C20.options_iff e he h1 h2 h3
+
+/-- … and raises NotImplementedError otherwise: **an ignorable option the caller has not opted
+    out of raises NotImplementedError** on every method that knows it, `find(collation=…)`
+    excepted. -/
+theorem options_not_implemented_unless_opted_out :
+    ∀ e ∈ Generated.options, e.option.ignorable = true → e.disp ≠ .raisesOther →
+      e.key ∉ Generated.knownSilent → e.optedOut = false → e.disp = .raisesNotImplemented := by
+  intro e he h1 h2 h3 h4
+  have hiff := options_ignored_iff_opted_out_partial e he h1 h2 h3
+  cases hd : e.disp with
+  | raisesNotImplemented => rfl
+  | raisesOther => exact absurd hd h2
+  | accepted => rw [h4] at hiff; exact absurd (hiff.mp hd) (by decide)
+
+/-- the table does contain ignorable options that raise NotImplementedError for want of an
+    opt-out (the pair probes above: even next to an opted-out one) -/
+example : ∃ e ∈ Generated.options, e.option.ignorable = true ∧ e.optedOut = false ∧
+    e.key ∉ Generated.knownSilent ∧ e.disp = .raisesNotImplemented := by
+  obtain ⟨e, he, hd⟩ := List.any_eq_true.mp Proofs.C20.some_ignorable_loud
+  simp only [Bool.and_eq_true, Bool.not_eq_true', decide_eq_true_eq, List.contains_eq_mem,
+    decide_eq_false_iff_not] at hd
+  exact ⟨e, he, hd.1.1.1, hd.1.1.2, hd.1.2, hd.2⟩
 
 /-! ## the opt-out switches (`not_implemented.py`), every state and feature name -/
 
